@@ -410,31 +410,31 @@ def check_delegation(rep, app):
                 kinds = {source_kind(callee)}
         delegates.append((r, kinds))
         rep.check('R13.a', fkey(dw, r), ok, 'returns %s(%s, %s): the delegate gets the original environ and start_response' % (norm(v.func) if ok else '?', env, sr) if ok else
-                  '_dispatch_wsgi returns %s instead of a WSGI delegate call with (%s, %s)' % (short(r.value), env, sr), app, r)
+                  '_dispatch_wsgi returns %s instead of a WSGI delegate call with (%s, %s)' % (short(r.value), env, sr), dw.mod, r)
     falls = cfg.exit in cfg.reach([cfg.entry], avoid=set(cfg.nodes_of_all(rets)), normal_only=True)
     rep.check('R13.a', fkey(dw, 'no fall-through'), not falls and bool(rets), 'every normal path ends in a delegate return' if not falls and rets else
-              '_dispatch_wsgi can return None', app, dw.node)
+              '_dispatch_wsgi can return None', dw.mod, dw.node)
     # exactly one delegate: no other call mentions start_response
     other = [c for c in walk_body(dw.node) if isinstance(c, ast.Call) and sr in [norm(a) for a in list(c.args) + [k.value for k in c.keywords]]
              and not any(c is v for v in dcalls)]
     rep.check('R13.a', fkey(dw, 'start_response passed once'), not other, 'start_response is only ever handed to the single delegate' if not other else
-              'start_response is also passed to %s' % [short(c) for c in other], app, dw.node)
+              'start_response is also passed to %s' % [short(c) for c in other], dw.mod, dw.node)
     # parameters never re-bound / mutated
     rebinds = [s for s in stmts_of(dw.node) if isinstance(s, (ast.Assign, ast.AugAssign)) and
                any(isinstance(n, ast.Name) and n.id in (env, sr) and isinstance(n.ctx, ast.Store) for n in ast.walk(s))]
     effs = [e for e in effects.effects_in(dw.node) if e.root in (env, sr)]
     rep.check('R13.a', fkey(dw, 'environ untouched'), not rebinds and not effs, 'environ / start_response are neither re-bound nor mutated' if not rebinds and not effs else
-              'environ or start_response is modified before delegation: %s' % ([short(x) for x in rebinds] + [short(e.node) for e in effs]), app, dw.node)
+              'environ or start_response is modified before delegation: %s' % ([short(x) for x in rebinds] + [short(e.node) for e in effs]), dw.mod, dw.node)
     # response is the dispatch result; reroute comes from the caught exception
     ok = any('response' in k for r, k in delegates) and all(k and k <= {'response', 'reroute'} for r, k in delegates)
     rep.check('R13.a', fkey(dw, 'response is the dispatch result'), ok, 'the delegate is the response object dispatch() produced' if ok else
-              'the called response is not the result of self.dispatch(request)', app, dw.node)
+              'the called response is not the result of self.dispatch(request)', dw.mod, dw.node)
     call = app.func('Application.__call__')
     rs = returns_of(call)
     ok = len(rs) == 1 and isinstance(rs[0].value, ast.Call) and norm(deref(call, rs[0].value.func)) == 'self._dispatch_wsgi' and \
         [norm(a) for a in rs[0].value.args] == call.params()[1:3] and not rs[0].value.keywords
     rep.check('R13.a', fkey(call), ok, '__call__ delegates to self._dispatch_wsgi(environ, start_response) (the wrapped stack)' if ok else
-              '__call__ does not delegate to self._dispatch_wsgi with its own arguments', app, call.node)
+              '__call__ does not delegate to self._dispatch_wsgi with its own arguments', call.mod, call.node)
     # nobody in the core calls start_response or writes environ -- with positive control
     ctl = ast.parse('def f(environ, start_response):\n    start_response("200 OK", [])\n    environ["x"] = 1\n')
     c_calls = [c for c in ast.walk(ctl) if isinstance(c, ast.Call) and call_tail(c) == 'start_response']
@@ -442,11 +442,11 @@ def check_delegation(rep, app):
     if len(c_calls) != 1 or len(c_effs) != 1:
         raise AnalysisError('positive control for start_response/environ detectors failed')
     calls, writes = [], []
-    for name in CORE_MODS + ['clastic.static', 'clastic.middleware.compress', 'clastic.middleware.client_cache', 'clastic.middleware.stats',
-                             'clastic.middleware.cookie', 'clastic.middleware.profile', 'clastic.middleware.url', 'clastic.middleware.form',
-                             'clastic.middleware.context', 'clastic.render.simple', 'clastic.render.tabular', 'clastic.meta']:
-        m = repo.try_mod(name)
-        if m is None:
+    # every module of the package (a function may move into a new private module and be imported back) except the WSGI
+    # *server* side clastic ships, which builds the environ and owns start_response by role
+    from .c12_ring import SERVER_MODS
+    for m in repo.all_internal_modules():
+        if m.name in SERVER_MODS:
             continue
         for fi in m.functions.values():
             for c in walk_body(fi.node):
@@ -619,7 +619,7 @@ def wrap_plan(app, ai, slot='_dispatch_wsgi'):
                     p.env = dict(zip(ps, c.args))
                     for k in c.keywords:
                         p.env[k.arg] = k.value
-                    p.site = stmt_of(app, c)
+                    p.site = stmt_of(ai.mod, c)
                     plans.append(p)
     if not plans:
         raise AnalysisError('no loop applying _safe_wrap_wsgi to the middlewares found in Application.__init__ or a method it calls')
@@ -692,18 +692,18 @@ def check_wrap_order(rep, app):
     ok = ok and plan.each_once
     rep.check('R13.b', fkey(ai, 'wrap loop'), ok,
               'wrappers are applied innermost-first over the reverse of all middlewares, each wrapping the current stack: the first middleware ends up outermost' if ok else
-              'Application.__init__ does not wrap self._dispatch_wsgi over reversed(_get_all_middlewares(self.routes))', app, plan.node if lf is ai else site)
-    seh = [stmt_of(app, c) for c in walk_body(ai.node) if isinstance(c, ast.Call) and norm(c.func) == 'self.set_error_handler']
+              'Application.__init__ does not wrap self._dispatch_wsgi over reversed(_get_all_middlewares(self.routes))', ai.mod, plan.node if lf is ai else site)
+    seh = [stmt_of(ai.mod, c) for c in walk_body(ai.node) if isinstance(c, ast.Call) and norm(c.func) == 'self.set_error_handler']
     ok = len(seh) == 1 and acfg.must_pass(acfg.nodes_of(seh[0]), acfg.entry, acfg.nodes_of(site)) and \
         not (set(acfg.nodes_of(seh[0])) & acfg.reach(acfg.nodes_of(site)))
     rep.check('R13.b', fkey(ai, 'error handler innermost'), ok, 'the error handler\'s wrapper is applied before (inside) all middleware wrappers' if ok else
-              'set_error_handler does not run before the middleware wrapping loop', app, seh[0] if seh else ai.node)
-    adds = [stmt_of(app, c) for c in walk_body(ai.node) if isinstance(c, ast.Call) and norm(c.func) == 'self.add']
+              'set_error_handler does not run before the middleware wrapping loop', ai.mod, seh[0] if seh else ai.node)
+    adds = [stmt_of(ai.mod, c) for c in walk_body(ai.node) if isinstance(c, ast.Call) and norm(c.func) == 'self.add']
     site_nodes = set(acfg.nodes_of(site))
     after = acfg.reach(list(site_nodes), include_src=False)
     ok = bool(adds) and all(acfg.nodes_of(a) and (site_nodes & acfg.reach(acfg.nodes_of(a))) and not (set(acfg.nodes_of(a)) & after) for a in adds)
     rep.check('R13.b', fkey(ai, 'wrappers after routes'), ok, 'wrappers are collected after the constructor\'s routes are bound' if ok else
-              'the wrapping loop does not follow the binding of routes', app, ai.node)
+              'the wrapping loop does not follow the binding of routes', ai.mod, ai.node)
     sh = app.func('Application.set_error_handler')
     w = [st for st in stmts_of(sh.node) if slot_store(st) is not None]
     ok = len(w) == 1 and wrapping_store(app, sh, w[0])
@@ -711,7 +711,7 @@ def check_wrap_order(rep, app):
         v, _ = through_temps(sh, slot_store(w[0]))
         ok = isinstance(v, ast.Call) and call_name(v) == '_safe_wrap_wsgi'
     rep.check('R13.b', fkey(sh), ok, 'set_error_handler wraps the current stack with the handler\'s wsgi_wrapper' if ok else
-              'set_error_handler does not wrap self._dispatch_wsgi', app, sh.node)
+              'set_error_handler does not wrap self._dispatch_wsgi', sh.mod, sh.node)
 
 
 def _comp_of(fi, expr):
@@ -829,7 +829,7 @@ def check_collect_middlewares(rep, app):
             seq = dict((id(s_), i) for i, s_ in enumerate(stmts_of(gm.node)))
             for a in apps:
                 el = a.args[0].id
-                st = stmt_of(app, a)
+                st = stmt_of(gm.mod, a)       # (the definition may live in another module than the anchor: its own parent map)
                 levels = iteration_levels(gm, st)
                 if levels is None:
                     raise AnalysisError('_get_all_middlewares: the iteration around %s is not a nest of for loops / chain.from_iterable / comprehension clauses' % short(st))
@@ -851,7 +851,7 @@ def check_collect_middlewares(rep, app):
                     bool(nested) and order < nested[0][5]
     rep.check('R13.b', fkey(gm), ok, 'the application\'s and each route\'s middlewares are walked in order; a type already collected is skipped '
               '(first occurrence kept)' if ok else
-              '_get_all_middlewares no longer keeps list order with first-occurrence de-duplication', app, gm.node)
+              '_get_all_middlewares no longer keeps list order with first-occurrence de-duplication', gm.mod, gm.node)
 
 
 def _is_none(cs, name):
@@ -884,7 +884,7 @@ def check_safe_wrap(rep, app):
     r_inner = [r for r in returns_of(sw) if r.value is not None and norm(r.value) == ps[2]]
     ok = bool(r_inner) and all(_is_none(conds(sw, r), W) for r in r_inner)
     rep.check('R13.b', fkey(sw, 'no wrapper'), ok, 'without a wsgi_wrapper the inner callable is returned untouched' if ok else
-              '_safe_wrap_wsgi does not return the inner callable untouched when there is no wrapper', app, sw.node)
+              '_safe_wrap_wsgi does not return the inner callable untouched when there is no wrapper', sw.mod, sw.node)
     wr = [s for s in stmts_of(sw.node) if isinstance(s, ast.Assign) and isinstance(s.value, ast.Call) and norm(s.value.func) == W and
           len(s.targets) == 1 and isinstance(s.targets[0], ast.Name)]
     ok = len(wr) == 1 and [norm(a) for a in wr[0].value.args] == [ps[2]] and not wr[0].value.keywords
@@ -896,10 +896,10 @@ def check_safe_wrap(rep, app):
         ok = ok and len(chk) == 1 and len(chk[0].args) + len(chk[0].keywords) == 1 and norm(argn(chk[0], app.func('check_valid_wsgi').params()[0], 0)) in res
         if ok:
             scfg = cfg_of(sw)
-            cst = stmt_of(app, chk[0])
+            cst = stmt_of(sw.mod, chk[0])
             ok = all(scfg.must_pass(scfg.nodes_of(cst), scfg.entry, scfg.nodes_of(r), normal_only=True) for r in others)
     rep.check('R13.b', fkey(sw, 'wrap and validate'), ok, 'the wrapper is called with the inner callable; the result is validated and returned' if ok else
-              '_safe_wrap_wsgi does not return the validated wsgi_wrapper(inner)', app, sw.node)
+              '_safe_wrap_wsgi does not return the validated wsgi_wrapper(inner)', sw.mod, sw.node)
 
 
 # -- check_valid_wsgi: which paths accept? -----------------------------------------------------------------------------
@@ -1084,7 +1084,7 @@ def check_valid_wsgi_rule(rep, app):
     ok = bool(accepting) and not bad and any(raise_type(r) == 'TypeError' for r in raises_of(cv))
     rep.check('R13.b', fkey(cv), ok, 'a wrapped callable must take (environ, start_response): every path that does not raise has compared its first two '
               'parameter names with exactly these' if ok else 'check_valid_wsgi no longer checks the parameter names' +
-              (' (accepts under %s)' % [('' if p else 'not ') + short(t, 60) for t, p in bad[0][2]] if bad else ''), app, cv.node)
+              (' (accepts under %s)' % [('' if p else 'not ') + short(t, 60) for t, p in bad[0][2]] if bad else ''), cv.mod, cv.node)
 
 
 # ---- R13.c -----------------------------------------------------------------------------------------------------------
@@ -1113,7 +1113,7 @@ def check_file_handover(rep, st):
         ok = ok and isinstance(mode, str) and 'b' in mode
     rep.check('R13.c', fkey(bfr, 'file handed to response'), ok,
               'the file opened (binary) for serving is wrapped by file_wrapper and becomes resp.response on every success path (closed by the response\'s close())' if ok else
-              'the opened file is not handed to the response through file_wrapper on every success path', st, opens[0] if opens else bfr.node)
+              'the opened file is not handed to the response through file_wrapper on every success path', bfr.mod, opens[0] if opens else bfr.node)
     # ... and nobody replaces the body afterwards: the file wrapper is the only reference through which close()
     # releases the file, also for HEAD (werkzeug closes resp.response in Response.close())
     for fi_ in st.functions.values():
@@ -1153,21 +1153,21 @@ def check_file_handover(rep, st):
         return isinstance(recv, ast.Attribute) and recv.attr == 'environ'
     ok = all(v is not None and from_environ(v) for v in fw)
     rep.check('R13.c', fkey(gfr, 'wsgi.file_wrapper'), ok, 'the server\'s wsgi.file_wrapper is used when offered' if ok else
-              'wsgi.file_wrapper from the environ is not honoured', st, gfr.node)
+              'wsgi.file_wrapper from the environ is not honoured', gfr.mod, gfr.node)
     sfi = st.func('StaticFileRoute.__init__')
     # the probe may sit in __init__ or in a function of the module __init__ calls
     holders = [sfi]
     for c in walk_body(sfi.node):
         if isinstance(c, ast.Call):
             rc = resolve_callee(sfi, c)
-            if rc is not None and rc[0] not in holders and rc[0].mod is st:
+            if rc is not None and rc[0] not in holders:      # (a function of the analysed tree, whichever module it lives in)
                 holders.append(rc[0])
     probes = [(h, c) for h in holders for c in walk_body(h.node) if isinstance(c, ast.Call) and call_name(c) == 'open']
 
     def closed(h, p):
         hcfg = cfg_of(h)
-        par = st.parents.get(p)
-        gp = st.parents.get(par)
+        par = h.mod.parents.get(p)
+        gp = h.mod.parents.get(par)
         if isinstance(par, ast.Attribute) and par.attr == 'close' and isinstance(gp, ast.Call) and gp.func is par:
             return True                       # open(...).close()
         if isinstance(par, ast.withitem) and par.context_expr is p:
@@ -1176,7 +1176,7 @@ def check_file_handover(rep, st):
             nm = par.targets[0].id
             if len(assigned_value(h.node, nm)) != 1:
                 return False
-            cl = [stmt_of(st, c) for c in walk_body(h.node) if isinstance(c, ast.Call) and isinstance(c.func, ast.Attribute) and
+            cl = [stmt_of(h.mod, c) for c in walk_body(h.node) if isinstance(c, ast.Call) and isinstance(c.func, ast.Attribute) and
                   c.func.attr == 'close' and norm(c.func.value) == nm]
             return bool(cl) and hcfg.must_pass(hcfg.nodes_of_all(cl), hcfg.nodes_of(par), hcfg.exit, normal_only=True)
         return False
@@ -1184,7 +1184,7 @@ def check_file_handover(rep, st):
         raise AnalysisError('StaticFileRoute.__init__: no probe open(...) found in it or in the functions of the module it calls')
     ok = all(closed(h, p) for h, p in probes)
     rep.check('R13.c', fkey(sfi, 'probe closed'), bool(ok), 'the construction-time probe is closed in the same statement' if ok else
-              'StaticFileRoute.__init__ leaves its probe file open', st, sfi.node)
+              'StaticFileRoute.__init__ leaves its probe file open', sfi.mod, sfi.node)
 
 
 def run(rep):
